@@ -981,6 +981,25 @@ func (o *ovsdbClient) monitor(ctx context.Context, cookie MonitorCookie, reconne
 	var err error
 	var tableUpdates interface{}
 
+	// updates received from now on are deferred until the initial contents
+	// of this monitor have been applied to the cache
+	db.cacheMutex.Lock()
+	wasDeferring := db.deferUpdates
+	db.deferUpdates = true
+	db.cacheMutex.Unlock()
+	// if the monitor cannot be established go back to applying updates as
+	// they are received, starting with the ones deferred in the meantime
+	stopDeferring := func() {
+		if wasDeferring {
+			return
+		}
+		db.cacheMutex.Lock()
+		defer db.cacheMutex.Unlock()
+		if err := db.populateDeferredUpdates(cookie.ID); err != nil {
+			o.logger.V(3).Error(err, "failed to apply deferred updates")
+		}
+	}
+
 	var lastTransactionFound bool
 	switch monitor.Method {
 	case ovsdb.MonitorRPC:
@@ -1000,25 +1019,36 @@ func (o *ovsdbClient) monitor(ctx context.Context, cookie MonitorCookie, reconne
 		}
 		tableUpdates = reply.Updates
 	default:
+		stopDeferring()
 		return fmt.Errorf("unsupported monitor method: %v", monitor.Method)
 	}
 
 	if err != nil {
 		if err == rpc2.ErrShutdown {
+			stopDeferring()
 			return ErrNotConnected
 		}
 		if err.Error() == "unknown method" {
 			if monitor.Method == ovsdb.ConditionalMonitorSinceRPC {
 				o.logger.V(3).Error(err, "method monitor_cond_since not supported, falling back to monitor_cond")
 				monitor.Method = ovsdb.ConditionalMonitorRPC
-				return o.monitor(ctx, cookie, reconnecting, monitor)
+				err = o.monitor(ctx, cookie, reconnecting, monitor)
+				if err != nil {
+					stopDeferring()
+				}
+				return err
 			}
 			if monitor.Method == ovsdb.ConditionalMonitorRPC {
 				o.logger.V(3).Error(err, "method monitor_cond not supported, falling back to monitor")
 				monitor.Method = ovsdb.MonitorRPC
-				return o.monitor(ctx, cookie, reconnecting, monitor)
+				err = o.monitor(ctx, cookie, reconnecting, monitor)
+				if err != nil {
+					stopDeferring()
+				}
+				return err
 			}
 		}
+		stopDeferring()
 		return err
 	}
 
@@ -1048,31 +1078,39 @@ func (o *ovsdbClient) monitor(ctx context.Context, cookie MonitorCookie, reconne
 	}
 
 	if err != nil {
+		db.deferUpdates = wasDeferring
 		return err
 	}
 
 	// populate any deferred updates
+	return db.populateDeferredUpdates(cookie.ID)
+}
+
+// populateDeferredUpdates applies the updates deferred so far to the cache, in
+// the order received, and stops deferring. Must be called with the cache and
+// monitors locks held.
+func (db *database) populateDeferredUpdates(monitorID string) error {
 	db.deferUpdates = false
 	for _, update := range db.deferredUpdates {
 		if update.updates != nil {
-			if err = db.cache.Populate(*update.updates); err != nil {
+			if err := db.cache.Populate(*update.updates); err != nil {
 				return err
 			}
 		}
 
 		if update.updates2 != nil {
-			if err = db.cache.Populate2(*update.updates2); err != nil {
+			if err := db.cache.Populate2(*update.updates2); err != nil {
 				return err
 			}
 		}
-		if len(update.lastTxnID) > 0 {
-			db.monitors[cookie.ID].LastTransactionID = update.lastTxnID
+		if mon := db.monitors[monitorID]; len(update.lastTxnID) > 0 && mon != nil {
+			mon.LastTransactionID = update.lastTxnID
 		}
 	}
 	// clear deferred updates for next time
 	db.deferredUpdates = make([]*bufferedUpdate, 0)
 
-	return err
+	return nil
 }
 
 // Echo tests the liveness of the OVSDB connetion
